@@ -69,7 +69,7 @@ Lemma written_confirmed_refuted : ~ written_confirmed_statement.
 Proof.
   intros H. destruct f8_written_unconfirmed as (Hw & _ & Hc).
   specialize (H 3 [3] f8_script [] 0 3%N 2 3 1 Hw eq_refl ltac:(lia)).
-  apply confirmed_in_bool in H. rewrite Hc in H. discriminate.
+  apply confirmed_in_bool in H. rewrite Hc in H. discriminate H.
 Qed.
 
 (* same start, but the republishes (tags 4, 5) are acked; a second batch of one message (tag 6)
